@@ -8,6 +8,13 @@ Strengthened slices (docs/STRENGTHEN_TASK.md; helpers in mc/ref/c02x.py):
   C02.extreme   lattice shifts up to 3e9 cells (tolerance scaled with |n|); cells with aspect ratios up to 2^20 and huge tilts
   C02.sequence  explicit-state search over call words (2D / 3D, cells sharing shape / diagonal / determinant, argument buffers
                 overwritten in place) in forked children
+Round 4 (docs/STRENGTHEN_TASK2.md; helpers in mc/ref/c02y.py):
+  C02.zeros     lesson L4: displacements that ARE the zero vector / a lattice vector, or have some components exactly 0, -0.0 or on a
+                lattice point while the others are generic; all-zero batches; (n,d), (d,) and list call shapes
+  C02.dtypes    lesson L5: RIJ float32 / int32 / int16 / Fortran float64, hmatrix float32, ppp uint8 / int8 / float32 arrays, lists of
+                python bools and of numpy uint8 scalars (full product)
+  C02.dilated   lesson L9: cell AND displacements multiplied by 2**-33 / 2**27 (exact in binary floating point): the result is the undilated
+                result times the same factor ("is this cell orthogonal / is this component zero" guards with absolute tolerances change their answer)
 """
 import itertools
 
@@ -16,6 +23,7 @@ import numpy as np
 from mc import alphabets as A
 from mc.harness import Result, Sub
 from mc.ref import c02x as X
+from mc.ref import c02y as Y
 
 ASSUMPTIONS = [
     "displacements are generated on the dyadic fractional grid {+-1/8,...,+-15/8}^d (never a half-cell tie) plus the "
@@ -32,6 +40,15 @@ ASSUMPTIONS = [
     "with shifts {-2..2}^d (beyond that the double-precision product r H^-1 itself loses the integer part: not a defect)",
     "call sequences: the result of a call must not depend on earlier calls, also when the caller re-uses ONE hmatrix / RIJ "
     "buffer object and overwrites it in place between the calls",
+    "C02.zeros: the zero displacement, exact lattice vectors and components that are exactly 0 / -0.0 / an integer number of cells are valid "
+    "real displacements (self pairs, particles on lattice sites): the result must be finite and equal the minimum image (zero on the "
+    "periodic axes for lattice points) within 1e-9; exact integers are not half-cell ties",
+    "C02.dtypes: the statement speaks of real displacements, real cell matrices and masks in {0,1}, not of float64 / int64: float32 and "
+    "int32 / int16 displacement arrays, a float32 cell matrix (then compared at float32 accuracy, 2e-6 cond(H) in fractional units) and masks "
+    "stored as uint8 / int8 / float32 arrays, python bools or numpy uint8 scalars in a list mean the same numbers.  float16 and extended "
+    "precision are not exercised (numpy.linalg does not support them); hmatrix as a python list is not documented and not exercised",
+    "C02.dilated: the minimum image is scale-covariant: remove_pbc(c r, c H) = c remove_pbc(r, H); for c a power of two this holds to rounding "
+    "(checked to 1e-9 in fractional coordinates and 1e-12 relative against the undilated call); c in {2**-33, 2**27} (SI-sized / huge boxes)",
 ]
 
 GRID = [k / 8.0 for k in range(-15, 16, 2)]  # 16 values, never k/2
@@ -534,6 +551,208 @@ def run_sequence(case):
     return R
 
 
+# ------------------------------------------------------------------------------------------ C02.zeros (round 4, L4)
+def gen_zeros(tier, seed):
+    for d in (2, 3):
+        cells = (A.cells2d() if d == 2 else A.cells3d(full=(tier == "thorough"))) + X.CELLS_GENERAL[d]
+        for H in cells:
+            for m in A.masks(d):
+                for shape in ("batch", "single", "allzero"):
+                    yield {"d": d, "H": H, "ppp": m, "shape": shape, "tier": tier}
+
+
+def _cmp_rows(R, sig, out, r, s, H, m, tol, what=""):
+    """every row against (s - rint(s) m) H in fractional coordinates; the signature names the class of the first wrong row"""
+    o = np.asarray(out)
+    if o.shape != np.shape(r):
+        R.fail(f"{what}shape {o.shape} != {np.shape(r)}", sig=dict(sig, clause="shape"))
+        return False
+    if o.dtype.kind not in "fiu" or not np.isfinite(o.astype(float)).all():
+        i = int(np.argmax(~np.isfinite(o.astype(float)).all(axis=1))) if o.dtype.kind in "fc" else 0
+        R.fail(f"{what}non-finite / non-real result (dtype {o.dtype}); first such row {i}: input fractional {s[i].tolist()} -> {o[i].tolist()}",
+               sig=dict(sig, clause="finite", rows=Y.row_class(s[i], m)), obs={"r": np.asarray(r, float)[i], "out": o[i]})
+        return False
+    if o.size == 0:
+        return True
+    fo = X.frac(o, H)
+    exp = s - np.rint(s) * m
+    err = np.abs(fo - exp).max(axis=1)
+    bad = np.nonzero(err > tol)[0]
+    if len(bad):
+        i = int(bad[0])
+        R.fail(f"{what}row {i} of {len(err)} ({len(bad)} rows wrong): input fractional {s[i].tolist()} -> fractional result {fo[i].tolist()}, minimum image "
+               f"is {exp[i].tolist()}", sig=dict(sig, clause="reference", rows=Y.row_class(s[i], m)), exp=exp[i] @ H, obs={"r": np.asarray(r, float)[i], "out": o[i]})
+        return False
+    return True
+
+
+def run_zeros(case):
+    from PyMatterSim.utils.pbc import remove_pbc
+
+    R = Result()
+    d = case["d"]
+    H = np.array(case["H"], float)
+    m = np.array(case["ppp"])
+    sig = {"cell": kind(H), "d": d, "masked": bool((m == 0).any()), "slice": "zeros", "shape": case["shape"]}
+    s = Y.zero_rows(d, case["tier"])
+    scale = np.abs(H).max()
+    if case["shape"] == "allzero":
+        # nothing but zero displacements: (n, d) float, (1, d), integer zeros, a list of lists, and the (d,) zero vector
+        outs = []
+        for tag, arg in (("(5,d) float zeros", np.zeros((5, d))), ("(1,d) float zeros", np.zeros((1, d))), ("(3,d) negative zeros", -np.zeros((3, d))),
+                         ("(4,d) int64 zeros", np.zeros((4, d), dtype=np.int64)), ("list of zero rows", [[0.0] * d, [0.0] * d]), ("(d,) zero vector", np.zeros(d))):
+            keep = np.array(arg, float)
+            o = np.asarray(remove_pbc(arg, H, m), float)
+            if not np.array_equal(np.array(arg, float), keep):
+                R.fail(f"{tag}: input modified", sig=dict(sig, clause="input_modified"))
+            o2 = o.reshape(-1, d) if o.size == keep.size else o
+            _cmp_rows(R, sig, o2, keep.reshape(-1, d), np.zeros((keep.size // d, d)), H, m, 1e-9, what=tag + ": ")
+            outs.append(o2)
+            R.elem += keep.size // d
+        R.outcome([np.round(o, 9) for o in outs])
+        R.nontrivial = True
+        return R
+    r = s @ H
+    r0 = r.copy()
+    if case["shape"] == "single":
+        got = [np.asarray(remove_pbc(r[i], H, m), float) for i in range(len(r))]
+        if any(g.size != d for g in got):
+            R.fail(f"{[g.size for g in got if g.size != d][0]} numbers returned for one {d}-vector", sig=dict(sig, clause="shape"))
+            return R
+        out = np.array([g.reshape(d) for g in got])
+    else:
+        out = remove_pbc(r, H, m)
+    R.elem = len(r)
+    if not np.array_equal(r, r0):
+        R.fail("input array modified", sig=dict(sig, clause="input_modified"))
+    if _cmp_rows(R, sig, out, r, s, H, m, 1e-9) and case["shape"] == "batch":
+        o = np.asarray(out, float)
+        o2 = np.asarray(remove_pbc(o, H, m), float)
+        R.elem += len(r)
+        if o2.shape != o.shape or not np.isfinite(o2).all() or np.abs(o2 - o).max() > 1e-9 * scale:
+            R.fail("not idempotent on results that contain exact zeros", sig=dict(sig, clause="idempotent"))
+    R.outcome(np.round(np.asarray(out, float), 9))
+    R.nontrivial = True  # every case holds the zero vector, lattice vectors and rows with single zero components (fixed alphabet)
+    return R
+
+
+# ------------------------------------------------------------------------------------------ C02.dtypes (round 4, L5)
+def gen_dtypes(tier, seed):
+    for d in (2, 3):
+        cells = X.CELLS_SCALE[d] + X.CELLS_GENERAL[d]
+        if tier == "quick":
+            cells = [X.CELLS_SCALE[d][0], X.CELLS_SCALE[d][1], X.CELLS_GENERAL[d][0], X.CELLS_GENERAL[d][3]]
+        for ci, H in enumerate(cells):
+            for m in A.masks(d):
+                for rf in Y.RIJ_DTYPES:
+                    yield {"d": d, "H": H, "ppp": m, "rij": rf, "salt": ci}
+
+
+def _mk_ppp_dtype(form, m):
+    if form in ("uint8", "int8", "float32", "int64"):
+        return np.array(m, dtype=form)
+    if form == "boollist":
+        return [bool(v) for v in m]
+    if form == "uint8list":
+        return [np.uint8(v) for v in m]
+    raise ValueError(form)
+
+
+def run_dtypes(case):
+    from PyMatterSim.utils.pbc import remove_pbc
+
+    R = Result()
+    d, rf = case["d"], case["rij"]
+    H = np.array(case["H"], float)
+    m = np.array(case["ppp"])
+    condH = float(np.linalg.cond(H))
+    integer = rf in ("int32", "int16")
+    if integer:
+        r = X.int_rows(NFORM, d, case["salt"]).astype(float)
+        s = X.frac(r, H)
+    else:
+        s = X.frac_rows(NFORM, d, case["salt"])
+        r = s @ H  # multiples of 1/32 below 64: exact in float32 too
+    outs = []
+    n_calls = 0
+    for hf in Y.H_DTYPES:
+        f32 = hf == "float32" or rf == "float32"
+        tol = (2e-6 if f32 else 1e-9) * max(1.0, condH)
+        keep = np.ones(NFORM, bool)
+        if integer:
+            # integer displacements are not on the dyadic fractional grid: rows close to a half-cell tie are not compared
+            per = s[:, m == 1]
+            keep = np.abs(np.abs(per - np.rint(per)) - 0.5).min(axis=1, initial=1.0) > (1e-3 if f32 else 1e-6)
+        for pf in Y.PPP_DTYPES:
+            sig = {"cell": kind(H), "d": d, "masked": bool((m == 0).any()), "slice": "dtypes", "rij": rf, "hmatrix": hf, "ppp": pf}
+            a_r = {"float32": lambda: r.astype(np.float32), "int32": lambda: r.astype(np.int32), "int16": lambda: r.astype(np.int16),
+                   "float64_fortran": lambda: np.asfortranarray(r)}[rf]()
+            a_h = H.astype(np.float32) if hf == "float32" else H.copy()
+            a_p = _mk_ppp_dtype(pf, m)
+            k_r, k_h, k_p = a_r.copy(), a_h.copy(), list(a_p) if isinstance(a_p, list) else a_p.copy()
+            out = remove_pbc(a_r, a_h, a_p)
+            n_calls += 1
+            if not (np.array_equal(a_r, k_r) and a_r.dtype == k_r.dtype and np.array_equal(a_h, k_h) and a_h.dtype == k_h.dtype):
+                R.fail(f"RIJ ({rf}) or hmatrix ({hf}) was modified", sig=dict(sig, clause="input_modified"))
+            if type(a_p) is not type(k_p) or not np.array_equal(np.array(a_p), np.array(k_p)) or (isinstance(a_p, np.ndarray) and a_p.dtype != k_p.dtype):
+                R.fail(f"ppp ({pf}) was modified", sig=dict(sig, clause="input_modified", arg="ppp"))
+            o = np.asarray(out)
+            if o.shape != r.shape:
+                R.fail(f"shape {o.shape} != {r.shape}", sig=dict(sig, clause="shape"))
+                break
+            compare_frac(R, sig, o[keep], r[keep], s[keep], H, m, np.full(int(keep.sum()), tol))
+            outs.append(np.round(o.astype(float), 5))
+            if R.viol:
+                break
+        if R.viol:
+            break
+    R.elem = n_calls * NFORM
+    R.outcome(outs[0] if outs else None)
+    R.nontrivial = bool(m.any())
+    return R
+
+
+# ------------------------------------------------------------------------------------------ C02.dilated (round 4, L9)
+DILATIONS = [2.0**-33, 2.0**27]
+
+
+def gen_dilated(tier, seed):
+    for d in (2, 3):
+        cells = X.CELLS_SCALE[d] + X.CELLS_GENERAL[d]
+        cells = cells + (A.cells2d()[3:7] if d == 2 else A.cells3d(full=(tier == "thorough"))[3:])
+        for ci, H in enumerate(cells):
+            for m in A.masks(d):
+                for c in DILATIONS:
+                    yield {"d": d, "H": H, "ppp": m, "c": c, "salt": ci % 5}
+
+
+def run_dilated(case):
+    from PyMatterSim.utils.pbc import remove_pbc
+
+    R = Result()
+    d, c = case["d"], case["c"]
+    H = np.array(case["H"], float)
+    m = np.array(case["ppp"])
+    s = np.vstack([X.frac_rows(NFORM, d, case["salt"]), Y.zero_rows(d, "quick")[:: 3 if d == 2 else 7]])
+    r = s @ H
+    Hc, rc = H * c, r * c  # exact: c is a power of two
+    k_h, k_r = Hc.copy(), rc.copy()
+    sig = {"cell": kind(H), "d": d, "masked": bool((m == 0).any()), "slice": "dilated", "factor": "2^-33" if c < 1 else "2^27"}
+    out = remove_pbc(rc, Hc, m)
+    base = np.asarray(remove_pbc(r, H, m), float)
+    R.elem = len(r)
+    if not (np.array_equal(Hc, k_h) and np.array_equal(rc, k_r)):
+        R.fail("an input array was modified", sig=dict(sig, clause="input_modified"))
+    if compare_frac(R, sig, out, rc, s, Hc, m, np.full(len(r), 1e-9), what=f"cell and displacements x {sig['factor']}: "):
+        o = np.asarray(out, float)
+        dev = np.abs(o - base * c).max() / (np.abs(H).max() * c)
+        if dev > 1e-12:
+            R.fail(f"remove_pbc(c r, c H) differs from c remove_pbc(r, H) by {dev:.3g} cell lengths (c = {sig['factor']})", sig=dict(sig, clause="covariance"))
+    R.outcome(np.round(np.asarray(out, float) / c, 9))
+    R.nontrivial = bool(m.any())
+    return R
+
+
 def subs(tier, seed):
     extra = [
         Sub("C02.scale", gen_scale, run_scale,
@@ -560,6 +779,22 @@ def subs(tier, seed):
                  "(n,d) and (d,) inputs), each word twice: fresh argument objects per call / ONE hmatrix, RIJ and ppp buffer per dimension "
                  "overwritten in place; every word runs in a forked child; every call must return the minimum image for ITS OWN arguments",
             bounds={"depth": 2 if tier == "quick" else 3, "letters": len(SEQ_LETTERS)}),
+        Sub("C02.zeros", gen_zeros, run_zeros,
+            rule="EXACT ZEROS / LATTICE POINTS (lesson L4): every row of {0, -0.0, +-1, -2, 3, 3/8, -11/8}^d in fractional coordinates (3D quick: 6 of the 8 "
+                 "values) - the zero vector, lattice vectors, rows with some components exactly zero or on a lattice point and the others generic - x all "
+                 "contract cells + 4 rotated / zero-diagonal / upper-triangular cells x all masks x call shape {one (n,d) batch (+ idempotence), row by row "
+                 "as (d,) vectors, all-zero inputs (float / -0.0 / int64 / list / (1,d) / (d,))}; every row finite and equal to the exact minimum image",
+            bounds={"values_per_axis": len(Y.ZVALS), "values_per_axis_3d_quick": len(Y.ZVALS_QUICK3)}),
+        Sub("C02.dtypes", gen_dtypes, run_dtypes,
+            rule="STORAGE TYPES (lesson L5): full product RIJ {" + ", ".join(Y.RIJ_DTYPES) + "} x hmatrix {" + ", ".join(Y.H_DTYPES) + "} x ppp {"
+                 + ", ".join(Y.PPP_DTYPES) + "} (boollist = python bools, uint8list = numpy uint8 scalars in a list) x 4 (quick) / 7 cells per dimension x all "
+                 "masks, 65 rows each; every row against the exact minimum image (float32 anywhere: 2e-6 cond(H)); arguments unchanged; one case = (cell, mask, RIJ type)",
+            bounds={"rows": NFORM, "rij": Y.RIJ_DTYPES, "hmatrix": Y.H_DTYPES, "ppp": Y.PPP_DTYPES}),
+        Sub("C02.dilated", gen_dilated, run_dilated,
+            rule="ABSOLUTE SCALE (lesson L9): cell matrix and displacements both multiplied by 2**-33 and by 2**27 (exact) x 7 scale/general cells + 4 (2D) / 9 "
+                 "(3D quick; thorough all) lower-triangular contract cells per dimension x all masks; 65 generic rows + rows with exact zeros / lattice points; every row "
+                 "against the exact minimum image in fractional coordinates and against factor x (result of the undilated call)",
+            bounds={"factors": ["2^-33", "2^27"], "rows": NFORM}),
     ]
     return [
         Sub(
